@@ -400,14 +400,17 @@ func ruleDeferOrder(p *core.Program) []core.Obligation {
 			continue
 		}
 		var target *ssa.Function
-		if mc, ok := rd.Call.Value.(*ssa.MakeClosure); ok {
+		mc, isClosure := rd.Call.Value.(*ssa.MakeClosure)
+		if isClosure {
 			target, _ = mc.Fn.(*ssa.Function)
+		} else {
+			target = rd.Call.StaticCallee()
 		}
-		if target == nil {
+		if target == nil || target.Blocks == nil {
 			continue
 		}
-		// channels the handler sends on, as seen from fn (free variables bound at the closure)
-		mc := rd.Call.Value.(*ssa.MakeClosure)
+		// channels the handler sends on, as seen from fn: free variables are bound at the closure,
+		// parameters (incl. the receiver) of a named handler at the defer statement
 		var chans []ssa.Value
 		core.EachInstr(target, func(b *ssa.BasicBlock, i int, ins ssa.Instruction) {
 			snd, ok := ins.(*ssa.Send)
@@ -415,10 +418,17 @@ func ruleDeferOrder(p *core.Program) []core.Obligation {
 				return
 			}
 			core.BackSlice(snd.Chan, func(x ssa.Value) bool {
-				if fv, ok := x.(*ssa.FreeVar); ok {
+				switch y := x.(type) {
+				case *ssa.FreeVar:
 					for j, f := range target.FreeVars {
-						if f == fv && j < len(mc.Bindings) {
+						if isClosure && f == y && j < len(mc.Bindings) {
 							chans = append(chans, mc.Bindings[j])
+						}
+					}
+				case *ssa.Parameter:
+					for j, pr := range target.Params {
+						if !isClosure && pr == y && j < len(rd.Call.Args) {
+							chans = append(chans, rd.Call.Args[j])
 						}
 					}
 				}
@@ -493,9 +503,29 @@ func ruleCancelEarly(p *core.Program) []core.Obligation {
 	}
 	var store ssa.Instruction
 	var planCalls []ssa.Instruction
+	storesCancel := func(f *ssa.Function) bool {
+		found := false
+		for g := range syncReach(p, f, func(caller *ssa.Function, ins ssa.Instruction, c *ssa.Function) bool {
+			cc := core.CallCommon(ins)
+			return cc == nil || !cc.IsInvoke()
+		}) {
+			core.EachInstr(g, func(b *ssa.BasicBlock, i int, ins ssa.Instruction) {
+				if st, ok := ins.(*ssa.Store); ok && core.IsFieldOf(st.Addr, modEngine, "compatibilityQuery", "cancel") && !core.IsNilConst(st.Val) {
+					found = true
+				}
+			})
+		}
+		return found
+	}
 	core.EachInstr(fn, func(b *ssa.BasicBlock, i int, ins ssa.Instruction) {
 		if st, ok := ins.(*ssa.Store); ok && core.IsFieldOf(st.Addr, modEngine, "compatibilityQuery", "cancel") {
 			store = st
+		}
+		// or a helper (a method of the query) that stores it
+		if c, ok := ins.(*ssa.Call); ok && store == nil {
+			if callee := c.Call.StaticCallee(); callee != nil && p.InRepo(callee) && recvNamed(callee) == recvNamed(fn) && storesCancel(callee) {
+				store = c
+			}
 		}
 		if cc := core.CallCommon(ins); cc != nil && cc.IsInvoke() && isVectorOperatorIface(cc.Value.Type()) && (cc.Method.Name() == "Series" || cc.Method.Name() == "Next") {
 			planCalls = append(planCalls, ins)
